@@ -95,6 +95,33 @@ Theorem C12_obs_sums_sound : forall unit L w,
 Proof. exact obs_sums_lookups. Qed.
 Print Assumptions C12_obs_sums_sound.
 
+(* overflow tracking: for ALL uint64 totals, account data, reward units and tracker flags, one
+   AddAccount / DelAccount / ApplyRewards call of the wrapped model satisfies the closed-form step
+   spec that [check] evaluates on the implementation's raw observations: it panics exactly when
+   the status is unknown, the reward unit is 0 or the balance with pending rewards is not
+   representable; the flag is raised exactly when the exact result leaves uint64; while it is down
+   the stored numbers are the exact ones and the other classes are untouched. *)
+Theorem C12_add_del_meet_spec : forall (add : bool) unit a t ot,
+  u64 unit = true -> totals_u64 t = true -> acct_ok a = true ->
+  spec_adddel add unit a t ot (if add then add_account unit a t ot else del_account unit a t ot) = true.
+Proof. exact add_del_meet_spec. Qed.
+Print Assumptions C12_add_del_meet_spec.
+
+Theorem C12_rewards_meet_spec : forall level t ot,
+  u64 level = true -> totals_u64 t = true ->
+  spec_rewards level t ot (Some (apply_rewards level t ot)) = true.
+Proof. exact rewards_meet_spec. Qed.
+Print Assumptions C12_rewards_meet_spec.
+
+(* Participating / All / RewardUnits: the exact sum, or a panic exactly when it leaves uint64 *)
+Theorem C12_all_meets_spec : forall t, totals_u64 t = true ->
+  participating t = spec_sum2 (c_money (t_on t)) (c_money (t_off t)) /\
+  all_money t = match spec_sum2 (c_money (t_on t)) (c_money (t_off t)) with
+                | Some p => spec_sum2 (c_money (t_np t)) p | None => None end /\
+  part_units t = spec_sum2 (c_units (t_on t)) (c_units (t_off t)).
+Proof. exact all_meets_spec. Qed.
+Print Assumptions C12_all_meets_spec.
+
 (* anti-vacuity: a concrete history meets the hypotheses and exercises a status change
    (offline -> online), a close (account 3 -> zero data, money to account 1), a move to
    non-participating and two rewards-level changes; the totals of round 3 are non-trivial. *)
